@@ -7,6 +7,7 @@
   D3 the constant-reuse lookup of orc_program_add_constant_str compares values at their full 64-bit width
 Literal parsing, independence of spacing/comments/line endings: NOT decided.
 """
+import re
 from facts import AnalysisBroken, access_path, init_rows, strip_casts, unparse
 from flow import Facts, single_defs
 from rules_common import where
@@ -182,6 +183,34 @@ def run(ctx):
     rep.check(ok, "D2-PREFIX", where(ho), "operand-order", "operands are copied in increasing token order (args[j] = tokens[i]; i++, j++)",
               "operand tokens are no longer copied to args[] in increasing order")
     rep.floor("D1-DIRECTIVES", 30)
+
+    # ---- D4: the synthetic name of an inline literal identifies the literal ----------------------------
+    # orc_program_append_str_n finds operands BY NAME.  The name made up for an inline literal must therefore be an
+    # injective function of (operand size, literal text): it has to contain the literal token itself (%s of the same
+    # token that is passed as the value) and the size.  A name derived from the parsed number (%g, %d ...) merges
+    # different constants that print alike.
+    calls4 = [c for c in ho.calls("orc_program_add_constant_str")]
+    if len(calls4) != 1:
+        raise AnalysisBroken("orc_parse_handle_opcode: expected one orc_program_add_constant_str call")
+    a4 = calls4[0].args()
+    pr4 = protos.get("orc_program_add_constant_str", [])
+    valtok, namearg, sizearg = unparse(a4[pr4.index("value")]), strip_casts(a4[pr4.index("name")]), unparse(a4[pr4.index("size")])
+    fmts = [c for c in ho.calls() if c.name in ("sprintf", "snprintf") and access_path(c.args()[0]) == access_path(namearg) and ho.dominates(c, calls4[0])]
+    ok4, why4 = False, "the name passed for an inline literal is `%s`, not a buffer formatted in this function" % unparse(namearg)
+    if fmts:
+        fc_ = fmts[-1]
+        fa = fc_.args()
+        fi = 1 if fc_.name == "sprintf" else 2
+        fmt = strip_casts(fa[fi]).get("str", "") if strip_casts(fa[fi]).k == "StringLiteral" else ""
+        convs = re.findall(r"%[-0-9.l]*([a-zA-Z])", fmt)
+        rest = [unparse(x) for x in fa[fi + 1:]]
+        has_tok = any(cv == "s" and rest[k] == valtok for k, cv in enumerate(convs) if k < len(rest))
+        has_size = sizearg in rest
+        ok4 = has_tok and has_size
+        why4 = "format `%s` with arguments %s" % (fmt, rest)
+    rep.check(ok4, "D4-LITERAL-NAME", where(ho), "inline-literal-name", "the synthetic constant name contains the operand size and the literal token itself",
+              "the name under which an inline literal is registered does not contain the literal's own text and size (%s): two different constants "
+              "can get the same name, and operands are looked up by name" % why4, line=calls4[0].line)
 
     # ---- D3: constants are merged only when their full 64-bit values agree ----------------------------
     # orc_program_add_constant_str reuses an existing constant slot for a literal of equal size and value.  The comparison
